@@ -24,7 +24,10 @@
 (*                        twice unless it was inserted again (at most one  *)
 (*                        yield per incarnation that existed since begin)  *)
 (*   it_erase(k)          erase(iterator) on the element k last yielded:   *)
-(*                        removes k if still present                       *)
+(*                        removes k if still present; a no-op if that      *)
+(*                        incarnation of k was removed by somebody else    *)
+(*                        since begin (even if k was inserted again)       *)
+(*            gone     keys of which an incarnation was removed since begin*)
 (*   it_end(full)         the iterator reached end(): every key that was   *)
 (*                        present throughout has been yielded              *)
 (* "xfind"/"xget": lock-free readers (vyukov try_get_value) - same meaning *)
@@ -32,7 +35,7 @@
 EXTENDS Integers, Sequences, FiniteSets
 
 KeyDom == 0 .. 9
-NoTrav == [on |-> FALSE, credit |-> [k \in KeyDom |-> 0], stay |-> {}, yielded |-> {}]
+NoTrav == [on |-> FALSE, credit |-> [k \in KeyDom |-> 0], stay |-> {}, yielded |-> {}, gone |-> {}]
 TravThreads == {0, 1, 2, 3, 9}
 SMInit == [m |-> <<>>, trav |-> [t \in TravThreads |-> NoTrav], excl |-> FALSE]
 \* m as a function with a dynamic domain: sequence of <<key, value>> pairs, kept sorted by key for canonicity
@@ -45,7 +48,7 @@ InsSorted(q, p) == IF q = <<>> THEN <<p>> ELSE IF p[1] < q[1][1] THEN <<p>> \o q
 SMCfg(s, op, a, b) == IF op = "exclusive_iter" THEN [s EXCEPT !.excl = TRUE] ELSE s
 
 OnInsert(s, k) == [t \in TravThreads |-> IF s.trav[t].on THEN [s.trav[t] EXCEPT !.credit[k] = @ + 1] ELSE s.trav[t]]
-OnErase(s, k) == [t \in TravThreads |-> IF s.trav[t].on THEN [s.trav[t] EXCEPT !.stay = @ \ {k}] ELSE s.trav[t]]
+OnErase(s, k) == [t \in TravThreads |-> IF s.trav[t].on THEN [s.trav[t] EXCEPT !.stay = @ \ {k}, !.gone = @ \cup {k}] ELSE s.trav[t]]
 Put(s, k, v) == [s EXCEPT !.m = InsSorted(s.m, <<k, v>>), !.trav = OnInsert(s, k)]
 Del(s, k) == [s EXCEPT !.m = Without(s, k), !.trav = OnErase(s, k)]
 Out(s, r, v) == [abs |-> s, r |-> r, v |-> v, tags |-> {}]
@@ -60,7 +63,7 @@ SMStep(s, op, a, b, ctx) ==
     [] op \in {"find", "get", "xget"} -> IF a \in Keys(s) THEN {Out(s, 1, ValOf(s, a))} ELSE {Out(s, 0, 0)}
     [] op = "contains" -> {Out(s, IF a \in Keys(s) THEN 1 ELSE 0, 0)}
     [] op = "it_begin" -> {Out([s EXCEPT !.trav[t] = [on |-> TRUE, credit |-> [k \in KeyDom |-> IF k \in Keys(s) THEN 1 ELSE 0],
-                                                      stay |-> Keys(s), yielded |-> {}]], 0, 0)}
+                                                      stay |-> Keys(s), yielded |-> {}, gone |-> {}]], 0, 0)}
     [] op = "it_yield" ->
          LET tr == s.trav[t] IN
          \* the key existed at some instant of the traversal, and it is yielded at most once per incarnation
@@ -68,8 +71,11 @@ SMStep(s, op, a, b, ctx) ==
          IF tr.on /\ tr.credit[a] > 0 /\ b \in {0, 10 * a}
            THEN {Out([s EXCEPT !.trav[t] = [tr EXCEPT !.yielded = @ \cup {a}, !.credit[a] = @ - 1]], 0, 0)}
            ELSE {}
-    [] op = "it_erase" ->      \* removes exactly the referenced element (if somebody else has not removed it already)
-         IF a \in Keys(s) THEN {Out(Del(s, a), 0, 0)} ELSE {Out(s, 0, 0)}
+    [] op = "it_erase" ->
+         \* removes exactly the referenced element.  The element an iterator refers to may be an incarnation of the key that
+         \* somebody else has removed meanwhile (gone): then nothing is removed, even if the key has been inserted again
+         (IF a \in Keys(s) THEN {Out(Del(s, a), 0, 0)} ELSE {Out(s, 0, 0)})
+           \cup (IF a \in s.trav[t].gone THEN {Out(s, 0, 0)} ELSE {})
     [] op = "it_end" ->
          LET tr == s.trav[t] IN
          IF tr.on /\ (a = 0 \/ tr.stay \subseteq tr.yielded)       \* a = 1: the traversal ran from begin() to end()
